@@ -89,6 +89,25 @@ void run_plain(const P& p, int gi, long idx, int mode, const std::string& input)
             break;
         }
         c.res = -2; break;
+        case 14:
+        if VF_ON(0)
+        {
+            // a string_buffer that was moved and copied after its construction, the objects it travelled through overwritten meanwhile
+            string_buffer a{ std::string(input) };
+            string_buffer b0(std::move(a));
+            a = string_buffer(std::string(input.size() + 3, 'z'));
+            string_buffer b(b0);
+            b0 = string_buffer(std::string(input.size() + 5, 'y'));
+            S.base = b.get_view(b.begin(), b.end()).data(); S.blen = input.size();
+            std::ostringstream ss;
+            {
+                auto r = p.parse(b, ss);
+                c.res = r.has_value(); c.root = root_id(r);
+            }
+            c.stream = ss.str();
+            break;
+        }
+        c.res = -2; break;
         case 2:
         if VF_ON(2)
         {
